@@ -597,20 +597,83 @@ type NonSeekable struct{ R io.Reader }
 
 func (n NonSeekable) Read(p []byte) (int, error) { return n.R.Read(p) }
 
-// SmallReads returns a reader that delivers data in small irregular chunks.
-func SmallReads(b []byte, r *rand.Rand) io.Reader {
-	return &chunkReader{br: bufio.NewReader(bytes.NewReader(b)), r: r}
+// SmallReads returns a reader that delivers data in small irregular chunks;
+// the first chunk has exactly `first` bytes (if the caller's buffer allows).
+func SmallReads(b []byte, r *rand.Rand, first int) io.Reader {
+	return &chunkReader{br: bufio.NewReader(bytes.NewReader(b)), r: r, first: first}
 }
 
 type chunkReader struct {
-	br *bufio.Reader
-	r  *rand.Rand
+	br    *bufio.Reader
+	r     *rand.Rand
+	first int
 }
 
 func (c *chunkReader) Read(p []byte) (int, error) {
 	n := 1 + c.r.Intn(97)
+	if c.first > 0 {
+		n = c.first
+		c.first = 0
+	}
 	if n > len(p) {
 		n = len(p)
 	}
 	return c.br.Read(p[:n])
+}
+
+// IdxEntry is one entry of a v2 pack index.
+type IdxEntry struct {
+	ID     string
+	CRC    uint32
+	Offset int64
+}
+
+// ParseIdxV2 is a minimal, independent reader of git's pack index v2 (sorted by id).
+func ParseIdxV2(idx []byte, hashSize int) ([]IdxEntry, error) {
+	if len(idx) < 8+1024+2*hashSize || !bytes.Equal(idx[:8], []byte{0xff, 't', 'O', 'c', 0, 0, 0, 2}) {
+		return nil, fmt.Errorf("not an idx v2")
+	}
+	be32 := func(b []byte) uint32 { return uint32(b[0])<<24 | uint32(b[1])<<16 | uint32(b[2])<<8 | uint32(b[3]) }
+	n := int(be32(idx[8+255*4:]))
+	names := 8 + 1024
+	crcs := names + n*hashSize
+	off32 := crcs + n*4
+	off64 := off32 + n*4
+	if off64+2*hashSize > len(idx) {
+		return nil, fmt.Errorf("idx too short for %d entries", n)
+	}
+	es := make([]IdxEntry, n)
+	for i := 0; i < n; i++ {
+		es[i].ID = hex.EncodeToString(idx[names+i*hashSize : names+(i+1)*hashSize])
+		es[i].CRC = be32(idx[crcs+i*4:])
+		o := be32(idx[off32+i*4:])
+		if o&0x80000000 != 0 {
+			k := int(o &^ 0x80000000)
+			p := off64 + k*8
+			if p+8 > len(idx)-2*hashSize {
+				return nil, fmt.Errorf("bad 64-bit offset index")
+			}
+			es[i].Offset = int64(uint64(be32(idx[p:]))<<32 | uint64(be32(idx[p+4:])))
+		} else {
+			es[i].Offset = int64(o)
+		}
+	}
+	return es, nil
+}
+
+// MakeBare lays out an empty bare repository without running git (cheap under load).
+func MakeBare(dir, format string) error {
+	for _, d := range []string{"objects/info", "objects/pack", "refs/heads", "refs/tags"} {
+		if err := os.MkdirAll(filepath.Join(dir, d), 0o755); err != nil {
+			return err
+		}
+	}
+	cfg := "[core]\n\trepositoryformatversion = 0\n\tfilemode = true\n\tbare = true\n"
+	if format == "sha256" {
+		cfg = "[core]\n\trepositoryformatversion = 1\n\tfilemode = true\n\tbare = true\n[extensions]\n\tobjectformat = sha256\n"
+	}
+	if err := os.WriteFile(filepath.Join(dir, "config"), []byte(cfg), 0o644); err != nil {
+		return err
+	}
+	return os.WriteFile(filepath.Join(dir, "HEAD"), []byte("ref: refs/heads/master\n"), 0o644)
 }
